@@ -67,6 +67,9 @@ ALPHABET = [
     # a default that is not a number is inside no limit: legal only while the category has none
     ("AddCategory", ("lim2", "length"), {"default_value": NAN, "override": True}),
     ("AddCategory", ("lim3",), {"from_category": "lim2", "min_value": 0.0}),
+    # a quantity type whose name is the empty string is a quantity type (nothing forbids the name): its units are taken
+    ("AddUnitBase", ("", "nameless base", "q0"), {}),
+    ("AddUnit", ("length", "the nameless type's symbol again", "q0") + F100, {}),
     # questions asked before / between the registrations (refused or answered - they must leave nothing behind that a later
     # registration does not supersede)
     ("Probe", ("depth", "cm"), {}),
@@ -75,6 +78,41 @@ ALPHABET = [
     # a unit of its own, with its own factors, whether or not the current spelling ('Mcf') is registered too
     ("AddUnit", ("volume", "thousand cubic feet (old symbol)", "1000ft3", "%f*28.0", "%f/28.0"), {}),
 ]
+
+
+_BY = []
+
+
+def bystander():
+    """another database alive in the process, in which the names of the histories mean other things"""
+    from barril.units import UnitDatabase
+
+    if not _BY:
+        d = UnitDatabase()
+        d.AddUnitBase("time", "second", "s")
+        for sym in ("m", "cm", "km", "ft", "m3"):
+            d.AddUnit("time", "a time here", sym, "%f/7.0", "%f*7.0")
+        d.AddUnitBase("length", "a length here", "min")
+        for c, q in (("length", "time"), ("depth", "time"), ("time", "length"), ("vol", "length"), ("volume", "time"), ("lim", "time"), ("x", "length")):
+            d.AddCategory(c, q)
+        _BY.append(d)
+    return _BY[0]
+
+
+def ask_the_bystander(db):
+    """every (category, unit) question the invariants are about to ask this database is asked of the bystander first: what
+    one database answered is nothing another may answer with"""
+    by = bystander()
+    try:
+        pairs = [(c, u) for c in db.IterCategories() for u in list(db.unit_to_unit_info)[:12]]
+    except Exception:
+        return
+    with table.pushed(by):
+        for c, u in pairs:
+            try:
+                by.CheckCategoryUnit(c, u)
+            except Exception:
+                pass
 
 
 def probe_questions(db, category, unit):
@@ -336,6 +374,7 @@ class Runner:
                         return
                 for key, detail in compare_with_model(db, m):
                     ctx.violation(key, dict(case, **detail), replay=case)
+                ask_the_bystander(db)
                 probs, notes = invariants(db, m.bases)
                 ctx.count("invariant evaluations: scalars built", notes["scalars_built"])
                 ctx.count("quantity types seen without a registered base (legal, not alarmed)", notes["types_without_base"])
@@ -346,8 +385,8 @@ class Runner:
 
 
 def random_call(r, m):
-    qts = ["length", "volume", "time"]
-    units = {"length": ["m", "cm", "km", "ft"], "volume": ["m3", "Mcf", "MMm3", "L", "1000ft3"], "time": ["s", "min"]}
+    qts = ["length", "volume", "time"] + ([""] if r.random() < 0.08 else [])
+    units = {"length": ["m", "cm", "km", "ft"], "volume": ["m3", "Mcf", "MMm3", "L", "1000ft3"], "time": ["s", "min"], "": ["q0", "m"]}
     legacy = {"Mcf": ["1000ft3", "k(ft3)"], "MMm3": ["M(m3)"]}
     cats = ["length", "depth", "vol", "time", "x", "y", "volume"]
     k = r.random()
